@@ -367,10 +367,20 @@ static void c13_encoder(rng_t *r,const drvargs_t *a,long id){
 }
 static void c13_decoder(rng_t *r,const drvargs_t *a,long id){
   char desc[300]; pktlist_t pk; int model=(id%4==3);
-  if(model){ pktlist_init(&pk); sp_setup *S=sp_gen_setup(r,(int)rng_below(r,SP_NPROFILES),1); sp_gen_stream(r,S,6,&pk,0); sp_free_setup(S); snprintf(desc,sizeof desc,"decoder, model-made headers"); }
+  int eqbs=0, badbook=0;
+  if(model){ pktlist_init(&pk); eqbs=((id/12)%3==1);   /* a third of the model cases (decoder cases are id%3==1, model-made ones id%4==3): both block sizes equal (legal; both lookups of every floor/residue/transform then have the same length), floor 0 preferred */
+    sp_setup *S=sp_gen_setup(r,eqbs&&rng_chance(r,0.6)?1:(int)rng_below(r,SP_NPROFILES),1); if(eqbs) S->bs1exp=S->bs0exp;
+    sp_gen_stream(r,S,eqbs?14:6,&pk,0);
+    if((id/12)%3==2){ /* a set-up that parses but cannot be built: one codeword length shortened so that the tree is over-populated; vorbis_synthesis_init then refuses, and is retried below */
+      for(int b=0;b<S->nbooks && !badbook;b++){ sp_book *B=&S->books[b]; if(B->ordered||B->used<3) continue;
+        long e=B->used_idx[rng_below(r,(uint32_t)B->used)]; if(B->len[e]>1){ B->len[e]=1; badbook=1; } }
+      if(badbook){ buf_t h0,h1,h2; buf_init(&h0); buf_init(&h1); buf_init(&h2); sp_write_headers(S,&h0,&h1,&h2);
+        free(pk.v[2].data); pk.v[2].data=malloc(h2.n); memcpy(pk.v[2].data,h2.p,h2.n); pk.v[2].bytes=(long)h2.n; buf_free(&h0); buf_free(&h1); buf_free(&h2); } }
+    sp_free_setup(S); snprintf(desc,sizeof desc,"decoder, model-made headers%s%s",eqbs?" (equal block sizes)":"",badbook?" (over-populated codebook)":""); }
   else { enccfg_t c; small_enc_cfg(r,&c,3000); encres_t er; if(enc_run(&c,&er)){ encres_free(&er); return; } pk=er.pk; enccfg_json(&c,desc,sizeof desc); }
   bytes_t hdr[3]; for(int i=0;i<3;i++) hdr[i]=bytes_dup(pk.v[i].data,pk.v[i].bytes);
   int prefix=(int)rng_below(r,4); int corrupt= rng_chance(r,0.6)?(int)rng_below(r,3):-1; int kind=0;
+  if(eqbs||badbook){ prefix=3; corrupt=-1; }
   if(corrupt>=0){ kind=1+(int)rng_below(r,MUT_KINDS-1); bytes_t m=mutate(r,hdr[corrupt].p,hdr[corrupt].n,kind,pk.v[2].data,pk.v[2].bytes); free(hdr[corrupt].p); hdr[corrupt]=m; }
   size_t dl=strlen(desc); snprintf(desc+dl,sizeof desc-dl," | prefix %d corrupt hdr %d (%s)",prefix,corrupt,mutname[kind]);
   size_t base=heap_now(); const char *scn="dec-no-headers";
@@ -380,12 +390,18 @@ static void c13_decoder(rng_t *r,const drvargs_t *a,long id){
     for(int i=0;i<prefix;i++){ memset(&op,0,sizeof op); op.packet=hdr[i].p; op.bytes=hdr[i].n; op.b_o_s=(i==0); op.packetno=i; int hr=vorbis_synthesis_headerin(&vi,&vc,&op); if(hr){ scn= i==0?"dec-header0-refused":i==1?"dec-header1-refused":"dec-header2-refused"; break; } okh++; }
     if(okh==prefix){
       scn= prefix==0?"dec-no-headers":prefix==1?"dec-1-header":prefix==2?"dec-2-headers":"dec-3-headers";
-      if(rng_chance(r,0.8)){
+      if(badbook||rng_chance(r,0.8)){
         if(vorbis_synthesis_init(&vd,&vi)==0){ dsp=1; vorbis_block_init(&vd,&vb); blk=1; scn="dec-init-ok";
           int na=pk.n-3, lim=(int)rng_range(r,0,na);
-          for(int j=0;j<lim;j++){ pkt_to_ogg(&pk.v[3+j],&op); if(vorbis_synthesis(&vb,&op)==0) vorbis_synthesis_blockin(&vd,&vb); float **pcm; int n; while((n=vorbis_synthesis_pcmout(&vd,&pcm))>0) vorbis_synthesis_read(&vd,n); }
+          if(eqbs) lim=na;
+          int wseen=0;
+          for(int j=0;j<lim;j++){ pkt_to_ogg(&pk.v[3+j],&op); if(vorbis_synthesis(&vb,&op)==0){ wseen|=1<<(vb.W?1:0); vorbis_synthesis_blockin(&vd,&vb); } float **pcm; int n; while((n=vorbis_synthesis_pcmout(&vd,&pcm))>0) vorbis_synthesis_read(&vd,n); }
           if(lim) scn="dec-decoded-some";
-        } else scn= prefix<3?"dec-init-refused-incomplete":"dec-init-refused";
+          if(eqbs && wseen==3){ scn="dec-equal-blocksizes-both-flags"; res_count("equal_blocksize_streams_decoded_with_both_flags",1); }
+        } else { scn= prefix<3?"dec-init-refused-incomplete":"dec-init-refused";
+          /* callers retry (vorbisfile does so on every read): each refused attempt must leave nothing behind for the final clear to miss */
+          int again=(int)rng_below(r,4); for(int t=0;t<again;t++){ if(vorbis_synthesis_init(&vd,&vi)==0){ dsp=1; break; } res_count("repeated_refused_decoder_inits",1); }
+          if(again && !dsp) scn= prefix<3?"dec-init-refused-repeatedly-incomplete":"dec-init-refused-repeatedly"; }
       }
     }
     if(blk) vorbis_block_clear(&vb);
@@ -397,6 +413,16 @@ static void c13_decoder(rng_t *r,const drvargs_t *a,long id){
   c13_judge(base,s2,desc);
   for(int i=0;i<3;i++) free(hdr[i].p);
   pktlist_free(&pk);
+}
+/* a model-made logical stream whose set-up header parses but holds a codebook with an over-populated codeword tree: vorbisfile opens it (open builds no decoder),
+   every attempt to decode it is refused */
+static int unbuildable_link(rng_t *r,int serial,buf_t *out){
+  sp_setup *S=sp_gen_setup(r,(int)rng_below(r,SP_NPROFILES),1); pktlist_t pk; pktlist_init(&pk); sp_gen_stream(r,S,(int)rng_range(r,4,12),&pk,0); int bad=0;
+  for(int b=0;b<S->nbooks && !bad;b++){ sp_book *B=&S->books[b]; if(B->ordered||B->used<3) continue; long e=B->used_idx[rng_below(r,(uint32_t)B->used)]; if(B->len[e]>1){ B->len[e]=1; bad=1; } }
+  if(bad){ buf_t h0,h1,h2; buf_init(&h0); buf_init(&h1); buf_init(&h2); sp_write_headers(S,&h0,&h1,&h2);
+    free(pk.v[2].data); pk.v[2].data=malloc(h2.n); memcpy(pk.v[2].data,h2.p,h2.n); pk.v[2].bytes=(long)h2.n; buf_free(&h0); buf_free(&h1); buf_free(&h2);
+    mux_stream(&pk,serial,PAGE_DEFAULT,0,rng_next(r),out); }
+  pktlist_free(&pk); sp_free_setup(S); return bad;
 }
 static void c13_file(rng_t *r,const drvargs_t *a,long id){
   char desc[700]; chaindesc_t cd; buf_t phys; buf_init(&phys);
@@ -422,6 +448,11 @@ static void c13_file(rng_t *r,const drvargs_t *a,long id){
     }
     free(pg); dn= dmg==7?"foreign-bos-twice":"foreign-bos";
   }
+  else if(dmg==8){ /* one more link, placed first or last, that opens but can never be decoded (reads and seeks into it are refused again and again) */
+    buf_t o; buf_init(&o); int first=rng_chance(r,0.5);
+    if(first){ if(unbuildable_link(r,0x7e57ab1e,&o)) dn="unbuildable-link-first"; buf_add(&o,phys.p,phys.n); }
+    else { buf_add(&o,phys.p,phys.n); if(unbuildable_link(r,0x7e57ab1e,&o)) dn="unbuildable-link-last"; }
+    buf_free(&phys); phys=o; }
   int seekmode= rng_chance(r,0.75)?1:(rng_chance(r,0.5)?0:2);
   int how=(int)rng_below(r,3);  /* 0 open_callbacks, 1 test+test_open, 2 test only (partial open) */
   int fk= rng_chance(r,0.4)?(int)rng_range(r,1,F_NKINDS-1):F_NONE; long fat=rng_range(r,0,60);
